@@ -74,6 +74,13 @@ func valueBytes(id int) []byte {
 	return out
 }
 
+// scribble overwrites a buffer in place (the values the harness uses never look like this).
+func scribble(b []byte) {
+	for i := range b {
+		b[i] = 0xA5
+	}
+}
+
 func valueToken(b []byte, max int) uint64 {
 	for id := 0; id <= max; id++ {
 		if bytes.Equal(b, valueBytes(id)) {
@@ -586,10 +593,13 @@ func (e *dbEnv) exec(callers []DBCaller, st DBStep) stepObs {
 			}
 			if err == nil {
 				o.Res = resObs{Class: "val", Ver: uint64(sv.Version), Val: valueToken(sv.Value, maxValueToken)}
+				scribble(sv.Value) // the caller overwrites what it was handed: the store must not follow it
 			}
 		case "put":
 			var v api.SecretVersion
-			v, err = e.d.Put(c, name, valueBytes(st.Val))
+			buf := valueBytes(st.Val)
+			v, err = e.d.Put(c, name, buf)
+			scribble(buf) // the caller reuses its buffer: what was stored must not follow it
 			if err == nil {
 				o.Res = resObs{Class: "ver", Ver: uint64(v)}
 			}
